@@ -23,7 +23,7 @@ import (
 const prefix = "/registry"
 const initRev = 100
 
-var keyPool = []string{"/registry/pods/a", "/registry/pods/b", "/registry/pods/c", "/registry/skip/x", "/registry/svc/s"}
+var keyPool = []string{"/registry/pods/a", "/registry/pods/b", "/registry/pods/c", "/registry/skip/x", "/registry/svc/s", "/registry/leases/l"}
 
 // relative compaction request: resolved when the step runs
 type relRev struct {
@@ -70,6 +70,23 @@ func genPlan(r *lib.Rand, cls string) []plan {
 	var ps []plan
 	n := 6 + r.Intn(8)
 	ps = append(ps, plan{kind: "write", n: 2 + r.Intn(4)})
+	if cls == "zigzag" {
+		ps[0].n = 12
+		// at least three compactions: high, low, in between
+		hi := uint64(r.Intn(3))
+		lo := hi + 4 + uint64(r.Intn(5))
+		mid := hi + 1 + uint64(r.Intn(int(lo-hi-1)))
+		for _, k := range []uint64{hi, lo, mid} {
+			kind := "compact"
+			if r.Chance(1, 5) {
+				kind = "compact2"
+			}
+			ps = append(ps, plan{kind: kind, rel: relRev{mode: "cur-k", k: k}})
+			if r.Bool() {
+				ps = append(ps, plan{kind: []string{"list", "stream", "scancount", "streampart"}[r.Intn(4)], rel: relRev{mode: "floor-k", k: uint64(1 + r.Intn(3))}, limit: int64(r.Intn(3))})
+			}
+		}
+	}
 	for i := 0; i < n; i++ {
 		switch x := r.Intn(100); {
 		case x < 30:
@@ -87,24 +104,32 @@ func genPlan(r *lib.Rand, cls string) []plan {
 				rel = relRev{mode: "zero"}
 			case "above":
 				rel = relRev{mode: "cur+k", k: uint64(1 + r.Intn(50))}
+			case "zigzag":
+				rel = relRev{mode: "cur-k", k: uint64(r.Intn(11))}
 			default:
 				rel = []relRev{{mode: "floor+k", k: uint64(r.Intn(3))}, {mode: "same"}, {mode: "floor-k", k: uint64(1 + r.Intn(6))},
 					{mode: "zero"}, {mode: "cur+k", k: uint64(r.Intn(5))}, {mode: "cur-k", k: uint64(r.Intn(5))}, {mode: "abs", k: uint64(r.Intn(130))}}[r.Intn(7)]
 			}
-			ps = append(ps, plan{kind: "compact", rel: rel, fault: r.Chance(1, 12)})
+			if r.Chance(1, 6) {
+				ps = append(ps, plan{kind: "compact2", rel: rel})
+			} else {
+				ps = append(ps, plan{kind: "compact", rel: rel, fault: r.Chance(1, 12)})
+			}
 		default:
 			rel := []relRev{{mode: "floor-k", k: 1}, {mode: "floor-k", k: uint64(1 + r.Intn(5))}, {mode: "floor+k", k: 0}, {mode: "floor+k", k: 1},
 				{mode: "zero"}, {mode: "cur-k", k: uint64(r.Intn(4))}, {mode: "cur+k", k: uint64(r.Intn(3))}, {mode: "abs", k: uint64(r.Intn(120))}}[r.Intn(8)]
-			k := []string{"list", "list", "list", "count", "scancount", "stream"}[r.Intn(6)]
+			k := []string{"list", "list", "list", "count", "scancount", "stream", "streampart"}[r.Intn(7)]
 			lim := int64(0)
 			if k == "list" && r.Bool() {
-				lim = int64(1 + r.Intn(3))
+				lim = []int64{1, 2, 3, 500}[r.Intn(4)]
 			}
 			ps = append(ps, plan{kind: k, rel: rel, limit: lim})
 		}
 	}
 	return ps
 }
+
+var partitionStreams, mixedPartitions int64
 
 var faultOn int32 // one-shot commit fault (0 off, 1 generic error, 2 uncertain result)
 
@@ -133,7 +158,15 @@ type result struct {
 
 func runCase(id int, seed uint64, cls, engine string, skipped []string, scratch string, plans []plan, sweep bool, uncertainAt int) (res result) {
 	res.kind = cls + "/" + engine
-	inner, closer, err := lib.NewEngine(engine, scratch)
+	var inner storage.KvStorage
+	var closer func()
+	var err error
+	if engine == lib.EngTiKV {
+		inner, closer, err = lib.NewTiKVSplit(cd.EncodeObjectKey([]byte("/registry/pods/b"), 0), cd.EncodeObjectKey([]byte("/registry/pods/c"), 3),
+			cd.EncodeObjectKey([]byte("/registry/skip/x"), 0))
+	} else {
+		inner, closer, err = lib.NewEngine(engine, scratch)
+	}
 	if err != nil {
 		res.fail = &lib.ImplFailure{CaseID: id, What: "engine: " + err.Error()}
 		return
@@ -213,6 +246,7 @@ func runCase(id int, seed uint64, cls, engine string, skipped []string, scratch 
 		return true
 	}
 
+	var be2 *lib.CsBackend
 	for pi, p := range plans {
 		if pi == uncertainAt {
 			atomic.StoreInt32(&myFault, 2)
@@ -233,6 +267,23 @@ func runCase(id int, seed uint64, cls, engine string, skipped []string, scratch 
 				return
 			}
 			record(lib.App("CWrite", lib.N(uint64(p.n))), "OWrite", map[string]interface{}{"op": "write", "n": p.n})
+		case "compact2":
+			rev := resolve(p.rel, cur, floor, last)
+			last = rev
+			if be2 == nil {
+				be2, err = lib.CsNewBackend(kv, prefix, skipped, cur)
+				if err != nil {
+					res.fail = &lib.ImplFailure{CaseID: id, What: err.Error()}
+					return
+				}
+				defer be2.Retire()
+			}
+			be2.B.SetCurrentRevision(cur)
+			resp, err := be2.B.Compact(context.Background(), rev)
+			hdr := resp.GetHeader().GetRevision()
+			outc["compact2-"+cresCoq(err)] = true
+			record(lib.App("CCompact2", lib.N(rev), lib.Nat(nranges)), lib.App("OCompact", lib.N(hdr), cresCoq(err)),
+				map[string]interface{}{"op": "compact-by-second-backend", "rev": rev, "hdr": hdr, "err": err != nil})
 		case "compact":
 			rev := resolve(p.rel, cur, floor, last)
 			last = rev
@@ -253,28 +304,31 @@ func runCase(id int, seed uint64, cls, engine string, skipped []string, scratch 
 			} else {
 				sawData = true
 			}
-			outc["read-"+rresCoq(isErr)] = true
+			outc["read-"+p.kind+"-"+rresCoq(isErr)] = true
 			record(op, lib.App("ORead", rresCoq(isErr)), map[string]interface{}{"op": p.kind, "rev": rev, "limit": p.limit, "err": isErr})
 		}
 	}
 	if sweep {
 		cur := be.B.GetCurrentRevision()
-		kinds := []string{"list", "list", "scancount", "stream"}
-		for rev := uint64(initRev - 1); rev <= cur+1; rev++ {
-			k := kinds[rnd.Intn(len(kinds))]
-			lim := int64(0)
-			if k == "list" && rnd.Bool() {
-				lim = 2
-			}
-			isErr, op := doRead(be, sc, k, rev, lim)
-			if isErr {
-				sawErr = true
-			} else {
-				sawData = true
-			}
-			outc["read-"+rresCoq(isErr)] = true
-			record(op, lib.App("ORead", rresCoq(isErr)), map[string]interface{}{"op": k, "rev": rev, "limit": lim, "err": isErr, "sweep": true})
+		type path struct {
+			kind  string
+			limit int64
 		}
+		paths := []path{{"list", 0}, {"list", 1}, {"list", 2}, {"list", 500}, {"scancount", 0}, {"stream", 0}, {"streampart", 0}}
+		for rev := uint64(initRev - 1); rev <= cur+1; rev++ {
+			for _, pth := range paths {
+				isErr, op := doRead(be, sc, pth.kind, rev, pth.limit)
+				if isErr {
+					sawErr = true
+				} else {
+					sawData = true
+				}
+				outc["read-"+pth.kind+"-"+rresCoq(isErr)] = true
+				record(op, lib.App("ORead", rresCoq(isErr)), map[string]interface{}{"op": pth.kind, "rev": rev, "limit": pth.limit, "err": isErr, "sweep": true})
+			}
+		}
+		isErr, op := doRead(be, sc, "count", 0, 0)
+		record(op, lib.App("ORead", rresCoq(isErr)), map[string]interface{}{"op": "count", "err": isErr, "sweep": true})
 	}
 	res.coq = lib.App("mkC8", lib.N(initRev), lib.List(steps))
 	res.json = map[string]interface{}{"class": cls, "engine": engine, "skipped": skipped, "steps": js, "floor_lowered": lowered}
@@ -304,6 +358,31 @@ func doRead(be *lib.CsBackend, sc interface {
 	case "stream":
 		_, isErr = be.Stream(start, end, rev)
 		op = lib.App("CStream", lib.N(rev))
+	case "streampart":
+		op = lib.App("CStreamPart", lib.N(rev))
+		pr, err := be.B.GetPartitions(context.Background(), &proto.ListPartitionRequest{Key: start, End: end})
+		if err != nil || len(pr.PartitionKeys) < 2 {
+			return true, op
+		}
+		nerr := 0
+		for i := 0; i+1 < len(pr.PartitionKeys); i++ {
+			ch, _ := be.B.ListByStream(context.Background(), pr.PartitionKeys[i], pr.PartitionKeys[i+1], rev)
+			bad := false
+			for m := range ch {
+				if m.Err != "" {
+					bad = true
+				}
+			}
+			if bad {
+				nerr++
+			}
+		}
+		atomic.AddInt64(&partitionStreams, int64(len(pr.PartitionKeys)-1))
+		if nerr != 0 && nerr != len(pr.PartitionKeys)-1 {
+			atomic.AddInt64(&mixedPartitions, 1)
+			return false, op // some partition served data
+		}
+		isErr = nerr != 0
 	}
 	return
 }
@@ -350,7 +429,19 @@ func main() {
 		corpus([]uint64{500, 101}, 102), corpus([]uint64{103, 111, 103}, 105))
 	jobs[0].skipped = nil
 	jobs[4].skipped = []string{"/registry/skip"}
-	classes := []string{"increasing", "repeated", "decreasing", "zero", "above", "mixed", "mixed", "mixed"}
+	zig := func(second bool, skipped []string, engine string) job {
+		ps := []plan{{kind: "write", n: 12}, {kind: "compact", rel: relRev{mode: "abs", k: 110}}}
+		if second {
+			ps = append(ps, plan{kind: "compact2", rel: relRev{mode: "abs", k: 111}})
+		}
+		ps = append(ps, plan{kind: "compact", rel: relRev{mode: "abs", k: 105}}, plan{kind: "list", rel: relRev{mode: "abs", k: 107}, limit: 2},
+			plan{kind: "compact", rel: relRev{mode: "abs", k: 108}}, plan{kind: "streampart", rel: relRev{mode: "abs", k: 109}},
+			plan{kind: "list", rel: relRev{mode: "abs", k: 109}, limit: 500})
+		return job{cls: "corpus-zigzag", engine: engine, skipped: skipped, plans: ps, sweep: true, unc: -1, seed: 11}
+	}
+	jobs = append(jobs, zig(false, nil, lib.EngMem), zig(false, []string{"/registry/skip", "/registry/leases"}, lib.EngMem),
+		zig(true, []string{"/registry/skip"}, lib.EngMem), zig(true, []string{"/registry/skip"}, lib.EngTiKV), zig(false, nil, lib.EngBadger))
+	classes := []string{"increasing", "repeated", "decreasing", "zero", "above", "zigzag", "zigzag", "mixed", "mixed", "mixed"}
 	engines := []string{lib.EngMem}
 	if args.Tier != "quick" {
 		engines = []string{lib.EngMem, lib.EngMem, lib.EngBadger, lib.EngTiKV}
@@ -361,8 +452,8 @@ func main() {
 		if args.Tier == "quick" && i%25 == 24 {
 			j.engine = []string{lib.EngBadger, lib.EngTiKV}[(i/25)%2]
 		}
-		if rnd.Chance(1, 4) {
-			j.skipped = []string{"/registry/skip"}
+		if rnd.Chance(1, 3) {
+			j.skipped = [][]string{{"/registry/skip"}, {"/registry/skip", "/registry/leases"}}[rnd.Intn(2)]
 		}
 		if rnd.Chance(1, 6) {
 			j.unc = 1 + rnd.Intn(len(j.plans)-1)
@@ -384,7 +475,9 @@ func main() {
 		}
 		w.Add(lib.Case{Kind: r.kind, Coq: r.coq, JSON: r.json, Trivial: r.trivial, Outcomes: r.outcomes})
 	}
-	if err := w.Finish("histories from the five request classes (increasing, repeated, decreasing, zero, above-current) and mixtures, interleaved with write bursts, an optional unknown-outcome write (retry-queue cap) and List/limited List/Count/scanner Count/ListByStream at revisions around the floor, followed by a sweep over every revision from init-1 to current+1; distinct = SHA-256 of the Coq case; non-trivial = at least one refused and one served read"); err != nil {
+	w.Stats.Extra["partition_streams"] = partitionStreams
+	w.Stats.Extra["partitions_answering_differently"] = mixedPartitions
+	if err := w.Finish("histories from the five request classes (increasing, repeated, decreasing, zero, above-current) and mixtures, interleaved with write bursts, an optional unknown-outcome write (retry-queue cap) and List/limited List/Count/scanner Count/ListByStream at revisions around the floor, followed by a sweep over every revision from init-1 to current+1 through every read path (List unlimited and with limits 1, 2, 500, scanner Count, ListByStream whole and per advertised partition); zigzag class = at least three compactions high/low/in-between, some through a second Backend on the same store, with 1-3 compaction ranges; distinct = SHA-256 of the Coq case; non-trivial = at least one refused and one served read"); err != nil {
 		fmt.Fprintln(os.Stderr, err)
 		os.Exit(2)
 	}
